@@ -228,7 +228,8 @@ def check_op(sc, obs, opi, add):
     for prev in sc['ops'][:opi]:
         if prev.get('op') == 'set' and prev.get('what') == 'order_tasks':
             order_eff = bool(prev.get('value'))
-    if order_eff and chunks is not None and full:
+    if order_eff and chunks is not None and ok:
+        # (whatever part of the call has been executed: a lazy call that was left open, or resumed later, included)
         where = {}
         if numpy_in:
             # every row block is one task and one chunk; the task function reports the first row of its block
@@ -266,6 +267,12 @@ def check_op(sc, obs, opi, add):
                 paused = False
         cs = op.get('chunk_size')
         ma = op.get('max_tasks_active')
+        if cs is None and ma is not None and op.get('input', 'list') in ('list', 'gen'):
+            # the chunk size the call derives (documented rule): n / n_splits, 4 for an input of unknown length, n / (64 n_jobs)
+            il = op.get('iterable_len')
+            known = m if op.get('input', 'list') == 'list' or il is not None else None
+            cs = (known / op['n_splits']) if (op.get('n_splits') and known) else 4 if known is None else known / (n_jobs * 64)
+            cs = max(cs, 1)
         if cs is not None and op['op'] == 'imap_unordered':
             bound = (ma if ma is not None else 2 * n_jobs * math.ceil(cs)) + math.ceil(cs)
             if worst > bound:
